@@ -736,6 +736,38 @@ func main() {
 					return nil
 				})
 			}
+			// the exported default parameters are a variable the application may set: encoding
+			// and negotiating with a value equal to the current default behaves like with any other
+			// value (sequential: the variable is process-wide)
+			t.DoN(int64(len(cfgs)), func() string { return "wsflate.DefaultParameters reassigned to each configuration in turn" }, func() *explore.Fail {
+				saved := wsflate.DefaultParameters
+				defer func() { wsflate.DefaultParameters = saved }()
+				for _, p := range cfgs {
+					wsflate.DefaultParameters = p
+					o := wsflate.DefaultParameters.Option()
+					var q P
+					if err := q.Parse(o); err != nil || q != p {
+						return explore.Failf("Option-of-reassigned-default-parameters", "default set to %s: Option() parses back to %s (err=%v)", ps(p), ps(q), err)
+					}
+					e := &wsflate.Extension{Parameters: wsflate.DefaultParameters}
+					f := &wsflate.Extension{Parameters: p}
+					for _, off := range []P{{}, {ServerMaxWindowBits: 12}, {ClientMaxWindowBits: 1}, {ServerNoContextTakeover: true, ClientMaxWindowBits: 10}} {
+						a, aerr := e.Negotiate(offerOption(off))
+						b, berr := f.Negotiate(offerOption(off))
+						e.Reset()
+						f.Reset()
+						if (aerr == nil) != (berr == nil) || optStr(a) != optStr(b) {
+							return explore.Failf("negotiation-with-reassigned-default-parameters", "default set to %s, offer %s: %q vs %q", ps(p), ps(off), optStr(a), optStr(b))
+						}
+						if a.Size() > 0 {
+							if why := legal(off, a); why != "" {
+								return explore.Failf("illegal-answer-with-reassigned-default-parameters:"+why, "%q", optStr(a))
+							}
+						}
+					}
+				}
+				return nil
+			})
 			for b := 0; b < 256; b++ {
 				b := wsflate.WindowBits(b)
 				t.Do(func() string { return fmt.Sprintf("WindowBits(%d) helpers", b) }, func() *explore.Fail {
